@@ -1045,8 +1045,8 @@ def _new_res():
                             'no user view deriver is placed over secured_view',
                             'debug_authorization is off (the authdebug wrapper asks the policy a second time, for logging only)',
                             'the policy answers as a function of (context, permission)'],
-            'trusted_base': ['extract/c05.py (phases, call-site table, _secured_view / MultiView / _call_view shapes, special directives)',
-                             'C18 sorter model + extract/c18.py for the default deriver chain',
+            'trusted_base': ['extract/c05.py + extract/c05_probe.py (behavioural tables probed on the tree under test: deriver wrapping order, secured_view, '
+                             '_call_view, MultiView, excview tween, action phases, special directives; ast call-site table)',
                              'resolution orders (zope.interface C3), predicate `order` and route matching / traversal are inputs (C01-C03)',
                              'DefaultViewMapper, decorators, renderers, csrf_view, http_cached_view are transparent for the event trace '
                              '(tied by the correspondence only)']}
